@@ -21,6 +21,7 @@ type Gen struct {
 	Pkgs     []*packages.Package
 	SSAPkgs  map[string]*ssa.Package // by package name
 	CS       *ContractSet
+	tagTys   map[string]types.Type // struct types mentioned in elemOf/tagged (see idtags.go)
 	Pures    map[string]*PureFn
 	strLits  map[string]string
 	strOrder []string
